@@ -12,15 +12,20 @@ func evalJumpIfStmt(node *ast.JumpIfStmt, env *object.Env) object.PanObject {
 		return err
 	}
 
+	truthy, err := truthiness(cond, env)
+	if err != nil {
+		return appendStackTrace(err, node.Source())
+	}
+
 	switch node.JumpStmt.JumpType {
 	case ast.ReturnJump:
-		return evalJumpIfReturn(node, env, cond)
+		return evalJumpIfReturn(node, env, truthy)
 	case ast.YieldJump:
-		return evalJumpIfYield(node, env, cond)
+		return evalJumpIfYield(node, env, truthy)
 	case ast.DeferJump:
-		return evalJumpIfDefer(node, env, cond)
+		return evalJumpIfDefer(node, env, truthy)
 	case ast.RaiseJump:
-		return evalJumpIfRaise(node, env, cond)
+		return evalJumpIfRaise(node, env, truthy)
 	default:
 		err := object.NewNotImplementedErr("the stmt is not implemented yet")
 		return appendStackTrace(err, node.Source())
@@ -30,9 +35,9 @@ func evalJumpIfStmt(node *ast.JumpIfStmt, env *object.Env) object.PanObject {
 func evalJumpIfYield(
 	node *ast.JumpIfStmt,
 	env *object.Env,
-	cond object.PanObject,
+	truthy bool,
 ) object.PanObject {
-	if !isTruthy(cond, env) {
+	if !truthy {
 		// stop iteration
 		err := object.NewStopIterErr("iter stopped")
 		return appendStackTrace(err, node.Source())
@@ -48,9 +53,9 @@ func evalJumpIfYield(
 func evalJumpIfReturn(
 	node *ast.JumpIfStmt,
 	env *object.Env,
-	cond object.PanObject,
+	truthy bool,
 ) object.PanObject {
-	if !isTruthy(cond, env) {
+	if !truthy {
 		// do nothing and keep func evaluating
 		return object.BuiltInNil
 	}
@@ -67,33 +72,38 @@ func evalJumpIfReturn(
 func evalJumpIfDefer(
 	node *ast.JumpIfStmt,
 	env *object.Env,
-	cond object.PanObject,
+	truthy bool,
 ) object.PanObject {
-	if !isTruthy(cond, env) {
+	if !truthy {
 		// do nothing and keep func evaluating
 		return object.BuiltInNil
 	}
 	return &object.DeferObj{Node: node.JumpStmt.Val}
 }
 
-func isTruthy(obj object.PanObject, env *object.Env) bool {
+// truthiness returns whether obj is truthy. An error raised by (obj).B is returned as it is.
+func truthiness(obj object.PanObject, env *object.Env) (bool, *object.PanErr) {
 	if b, ok := obj.(*object.PanBool); ok {
-		return b == object.BuiltInTrue
+		return b == object.BuiltInTrue, nil
 	}
 
 	// use (obj).B to check truthy/falsy
 	bSym := object.NewPanStr("B")
 	cond := builtInCallProp(env, object.EmptyPanObjPtr(),
 		object.EmptyPanObjPtr(), obj, bSym)
-	return cond == object.BuiltInTrue
+	if err, ok := cond.(*object.PanErr); ok {
+		// NOTE: an error in B must not be treated as falsy
+		return false, err
+	}
+	return cond == object.BuiltInTrue, nil
 }
 
 func evalJumpIfRaise(
 	node *ast.JumpIfStmt,
 	env *object.Env,
-	cond object.PanObject,
+	truthy bool,
 ) object.PanObject {
-	if !isTruthy(cond, env) {
+	if !truthy {
 		// do nothing and keep func evaluating
 		return object.BuiltInNil
 	}
